@@ -27,7 +27,10 @@ SHAPES = [("cat", "cat")] * 3 + [("cat", "mr"), ("mr", "cat"), ("mr", "mr"),
                                   ("cat_date", "cat"), ("cat", "text"),
                                   ("cat", "cat", "cat"), ("cat", "cat", "cat"),
                                   ("mr", "cat", "cat"), ("cat", "mr", "cat"),
-                                  ("cat", "cat", "mr"), ("mr", "mr", "mr")]
+                                  ("cat", "cat", "mr"), ("mr", "mr", "mr"),
+                                  ("cat_date", "cat", "cat"), ("numeric", "cat", "cat"),
+                                  ("text", "cat", "mr"), ("datetime", "mr", "cat"),
+                                  ("logical", "cat", "cat")]
 
 
 @st.composite
